@@ -300,7 +300,7 @@ func (in *Interp) index(x *ast.IndexExpr) Value {
 	}
 	if k, ok := in.D.ConstVal(idx); ok {
 		if k < 0 || int(k) >= n {
-			in.fail(x, "index %d out of range [0,%d) on a live path", k, n)
+			in.crash(x, "index %d out of range [0,%d)", k, n)
 		}
 		return at(int(k))
 	}
@@ -366,9 +366,12 @@ func (in *Interp) slice(x *ast.SliceExpr) Value {
 		capEnd = s.Hi
 	}
 	if lo < 0 || hi < lo || s.Lo+hi > capEnd || s.Lo+hi > len(s.Back.E) {
-		in.fail(x, "slice bounds [%d:%d] out of range (len %d) on a live path", lo, hi, s.Len())
+		if s.CapUnknown && lo >= 0 && hi >= lo {
+			in.fail(x, "slice bounds [%d:%d] beyond len %d of a slice whose capacity after a reallocating append is an implementation detail", lo, hi, s.Len())
+		}
+		in.crash(x, "slice bounds [%d:%d] out of range (len %d, cap %d)", lo, hi, s.Len(), s.Cap)
 	}
-	return &Slice{Back: s.Back, Lo: s.Lo + lo, Hi: s.Lo + hi, Cap: capEnd - (s.Lo + lo), Elem: s.Elem}
+	return &Slice{Back: s.Back, Lo: s.Lo + lo, Hi: s.Lo + hi, Cap: capEnd - (s.Lo + lo), Elem: s.Elem, CapUnknown: s.CapUnknown}
 }
 
 func (in *Interp) compositeLit(x *ast.CompositeLit, t types.Type) Value {
@@ -538,7 +541,7 @@ func (in *Interp) call(x *ast.CallExpr) Value {
 				}
 				dynT, dyn := in.dynamic(rv, x)
 				if dynT == nil {
-					in.fail(x, "method call on a nil interface on a live path")
+					in.crash(x, "method call on a nil interface")
 				}
 				obj, _, _ := types.LookupFieldOrMethod(dynT, true, fn.Pkg(), fn.Name())
 				cf, ok := obj.(*types.Func)
@@ -680,7 +683,7 @@ func (in *Interp) builtin(name string, x *ast.CallExpr) Value {
 			c = in.constInt(x.Args[2], "make capacity")
 		}
 		if n < 0 || c < n || c > 1<<16 {
-			in.fail(x, "make(%d,%d) on a live path", n, c)
+			in.crash(x, "make(%d,%d)", n, c)
 		}
 		bk := &Backing{}
 		for i := 0; i < c; i++ {
@@ -739,7 +742,7 @@ func (in *Interp) builtin(name string, x *ast.CallExpr) Value {
 		for _, v := range added {
 			bk.E = append(bk.E, &Cell{v})
 		}
-		return &Slice{Back: bk, Lo: 0, Hi: len(bk.E), Cap: len(bk.E), Elem: s.Elem}
+		return &Slice{Back: bk, Lo: 0, Hi: len(bk.E), Cap: len(bk.E), Elem: s.Elem, CapUnknown: true}
 	case "copy":
 		dst, ok1 := in.expr(x.Args[0]).(*Slice)
 		if !ok1 {
@@ -767,7 +770,7 @@ func (in *Interp) builtin(name string, x *ast.CallExpr) Value {
 		}
 		return in.D.Const(int64(n), 64, true)
 	case "panic":
-		in.fail(x, "explicit panic on a live path")
+		in.crash(x, "explicit panic")
 	case "new":
 		t := info.TypeOf(x.Args[0])
 		return &Ptr{To: &Cell{in.Zero(t)}, T: t}
